@@ -189,6 +189,9 @@ int bufr_expand_sequence( BUFR_Sequence *bsq, int flags, BUFR_Tables *tbls )
  * @author Vanh Souvanlasy
  * @ingroup internal
  */
+#define OP_TABLED_DEPTH_SHIFT  16
+#define OP_TABLED_DEPTH_MAX    64
+
 static LinkedList *bufr_expand_list( LinkedList *lst, int flags, BUFR_Tables *tbls, int *errflg, BUFR_DecodeInfo *s4 )
    {
    ListNode *node;
@@ -273,6 +276,20 @@ static LinkedList *bufr_expand_desc( int desc, int flags, BUFR_Tables *tbls, int
       return NULL;
       }
 
+/*
+ * the nesting depth of Table D sequences travels in the upper bits of flags:
+ * a circular (local) Table D must not recurse forever
+ */
+   if (((flags >> OP_TABLED_DEPTH_SHIFT) & 0xff) >= OP_TABLED_DEPTH_MAX)
+      {
+      char errmsg[256];
+
+      if (errflg) *errflg = 1;
+      sprintf( errmsg, _("Error: Table D sequence %d nested too deeply (circular reference ?)\n"), desc );
+      bufr_print_debug( errmsg );
+      return NULL;
+      }
+
    lst = lst_newlist();
 
    count = etblD->count;
@@ -308,7 +325,7 @@ static LinkedList *bufr_expand_desc( int desc, int flags, BUFR_Tables *tbls, int
       lst_addlast( lst, lst_newnode( bcd ) );
       }
 
-   lst1 = bufr_expand_list( lst, flags, tbls, errflg, s4 );
+   lst1 = bufr_expand_list( lst, flags + (1 << OP_TABLED_DEPTH_SHIFT), tbls, errflg, s4 );
    if (lst1 == NULL)
       bufr_free_descriptorList( lst );
    return lst1;
